@@ -4,7 +4,7 @@ CONSTANTS
   NameTokens <- TokQ
   MaxName = 4
   FixedNames <- NamesForFs
-  FmtTokens <- FTokT
+  FmtTokens <- FTokQ
   MaxFmt = 3
   Heads <- HeadEq
   OptParts <- OptsFew
